@@ -94,6 +94,17 @@ pub fn plan(prop: &str, tier: &str) -> Option<Plan> {
                     b.add(s, few, &[&[("classes", RC_EBR)]], 2);
                 }
             }
+            // generated family: every pair of 2-operation programs (12 letters) + a rounds thread
+            if quick {
+                b.add_cases("gen/rc", e(0).set("k1", 1).set("k2", 1).set("init", 2).set("pre", 2), crate::scen::gen::rc_cases(1, 1), 12);
+            } else {
+                for (init, pre) in [(1, 2), (2, 2), (2, 3), (1, 0)] {
+                    b.add_cases("gen/rc", e(0).set("k1", 2).set("k2", 2).set("init", init).set("pre", pre), crate::scen::gen::rc_cases(2, 2), 80);
+                }
+            }
+            for u in b.units.iter_mut().filter(|u| u.scenario == "gen/rc") {
+                u.bound = 2;
+            }
             b.goal("rc/upgrade-vs-attempt", "upgrade-some");
             b.goal("rc/upgrade-vs-attempt", "try-destruct-ran");
             b.goal("rc/counted-on-cascade-child", "cascade-child-destructed");
@@ -121,6 +132,16 @@ pub fn plan(prop: &str, tier: &str) -> Option<Plan> {
                 for s in ["rc/reader-vs-root-reclaim", "rc/reader-second-path", "rc/ws-upgrade-vs-cascade-child"] {
                     b.add(s, few, &[&[("classes", RC_EBR)]], 2);
                 }
+            }
+            if quick {
+                b.add_cases("gen/rc", e(0).set("k1", 1).set("k2", 1).set("init", 3).set("pre", 2), crate::scen::gen::rc_cases(1, 1), 12);
+            } else {
+                for (e0, init, pre) in [(0, 3, 2), (14, 3, 2), (0, 3, 3), (0, 0, 2)] {
+                    b.add_cases("gen/rc", e(e0).set("k1", 2).set("k2", 2).set("init", init).set("pre", pre), crate::scen::gen::rc_cases(2, 2), 80);
+                }
+            }
+            for u in b.units.iter_mut().filter(|u| u.scenario == "gen/rc") {
+                u.bound = 2;
             }
             b.goal("rc/stalled-dropper", "cascade-child-destructed");
             b.goal("rc/reader-second-path", "try-destruct-ran");
@@ -151,6 +172,14 @@ pub fn plan(prop: &str, tier: &str) -> Option<Plan> {
             let depth = if quick { 4 } else { 6 };
             for &e0 in (if quick { few } else { all }).iter() {
                 b.add_cases("seq/upgrade-histories", e(e0).set("depth", depth).set("claim", 5), seq::upgrade_cases(depth as usize), 1500);
+            }
+            if !quick {
+                for (init, pre) in [(2, 2), (3, 2)] {
+                    b.add_cases("gen/rc", e(5).set("k1", 2).set("k2", 2).set("init", init).set("pre", pre).set("claim", 5), crate::scen::gen::rc_cases(2, 2), 80);
+                }
+                for u in b.units.iter_mut().filter(|u| u.scenario == "gen/rc") {
+                    u.bound = 2;
+                }
             }
             b.goal("seq/upgrade-histories", "upgrade-some");
             b.goal("seq/upgrade-histories", "upgrade-none");
@@ -251,6 +280,13 @@ pub fn plan(prop: &str, tier: &str) -> Option<Plan> {
             if !quick {
                 for &pr in two {
                     b.add("ebr/sections", &[7, 65535], &[&[("prog", pr), ("bag", 2)]], 3);
+                }
+            }
+            if !quick {
+                let k = 4;
+                b.add_cases("gen/ebr", e(0).set("k", k).set("bag", 2), crate::scen::gen::ebr_cases(k as usize), 40);
+                for u in b.units.iter_mut().filter(|u| u.scenario == "gen/ebr") {
+                    u.bound = 1;
                 }
             }
             if prop == "C14" {
@@ -355,6 +391,11 @@ pub fn plan(prop: &str, tier: &str) -> Option<Plan> {
             bounds = json!({"triples": total, "e0": e0s});
         }
         _ => return None,
+    }
+    if let Ok(only) = std::env::var("VERIF_ONLY") {
+        // development aid: restrict a check to the scenarios with this name prefix
+        b.units.retain(|u| u.scenario.starts_with(&only));
+        b.goals.retain(|g| g.scenario.starts_with(&only));
     }
     if prop == "C16" || prop == "C20" {
         // "does not panic" is part of these properties: run everything a second time in the
